@@ -39,6 +39,9 @@ Reasons(e) ==
       \cup (IF e.fwd = "none" \/ e.fwd \in Allowed(e) THEN {}
             ELSE {"subnet sent upstream is not the coarse subnet of the location (or the zero prefix when opted out)"})
       \cup (IF e.fwd = "none" \/ e.fwdscope = 0 THEN {} ELSE {"non-zero scope sent upstream"})
+      \* every ECS option the upstream receives is the coarse subnet (or the zero prefix), however many the client sent
+      \cup (IF \A i \in 1..Len(e.fwdall) : e.fwdall[i] \in Allowed(e) THEN {}
+            ELSE {"a subnet supplied by the client reached the upstream"})
       \* (exprc = 99 with no content at all: a failed or truncated reply carries no answer, made for nobody)
       \cup (IF e.opt = "zero" /\ e.content # e.q /\ ~(e.exprc = 99 /\ e.content = "none")
             THEN {"opted-out client served an answer made for a subnet"} ELSE {})
